@@ -135,7 +135,107 @@ class SymBytes:
     def __contains__(self, x):
         if isinstance(x, (int, SymInt)):
             return bool(sor(*[i == x for i in self.items]))
-        raise SxUnsupported("subsequence in symbytes")
+        return bool(self.find(x) >= 0)
+
+    def _find(self, sub, reverse=False):
+        if isinstance(sub, (int, SymInt)) and not isinstance(sub, (bytes, SymBytes)):
+            subitems = [sub]
+        else:
+            subitems = as_symbytes(sub).items
+        n, m = len(self.items), len(subitems)
+        res = -1
+        rng = range(0, n - m + 1)
+        for k in (rng if reverse else reversed(rng)):
+            hit = sand(*[self.items[k + j] == subitems[j] for j in range(m)])
+            res = ite(hit, k, res)
+        return res
+
+    def find(self, sub, *a):
+        if a:
+            raise SxUnsupported("bytes.find with bounds")
+        return self._find(sub)
+
+    def rfind(self, sub, *a):
+        if a:
+            raise SxUnsupported("bytes.rfind with bounds")
+        return self._find(sub, reverse=True)
+
+    def index(self, sub, *a):
+        r = self.find(sub, *a)
+        if r < 0:
+            raise ValueError("subsection not found")
+        return r
+
+    def count(self, sub):
+        if isinstance(sub, (int, SymInt)) and not isinstance(sub, (bytes, SymBytes)):
+            return sum((ite(i == sub, 1, 0) for i in self.items), 0)
+        raise SxUnsupported("bytes.count of a subsequence")
+
+    def _strip(self, chars, left, right):
+        ws = (9, 10, 11, 12, 13, 32) if chars is None else tuple(as_symbytes(chars).items)
+        items = list(self.items)
+        while left and items and bool(sor(*[items[0] == w for w in ws])):
+            items.pop(0)
+        while right and items and bool(sor(*[items[-1] == w for w in ws])):
+            items.pop()
+        return mk_bytes(items)
+
+    def strip(self, chars=None): return self._strip(chars, True, True)
+    def lstrip(self, chars=None): return self._strip(chars, True, False)
+    def rstrip(self, chars=None): return self._strip(chars, False, True)
+
+    def ljust(self, width, fill=b" "):
+        width = concretize(width)
+        f = as_symbytes(fill).items
+        return mk_bytes(self.items + f * max(width - len(self.items), 0))
+
+    def rjust(self, width, fill=b" "):
+        width = concretize(width)
+        f = as_symbytes(fill).items
+        return mk_bytes(f * max(width - len(self.items), 0) + self.items)
+
+    def removeprefix(self, p):
+        p = as_symbytes(p)
+        if len(p) <= len(self) and bool(self.startswith(p)):
+            return mk_bytes(self.items[len(p):])
+        return self
+
+    def removesuffix(self, p):
+        p = as_symbytes(p)
+        if len(p) and len(p) <= len(self) and bool(self.endswith(p)):
+            return mk_bytes(self.items[:len(self) - len(p)])
+        return self
+
+    def decode(self, encoding="utf-8", errors="strict"):
+        enc = encoding.lower().replace("-", "").replace("_", "")
+        for k, c in enumerate(self.items):
+            if bool(c > 127):
+                if enc == "ascii":
+                    raise UnicodeDecodeError("ascii", b"?", k, k + 1, "ordinal not in range(128)")
+                raise SxUnsupported("decoding of non-ascii symbolic bytes")
+        return SymStr.mk(self.items)
+
+    def isascii(self):
+        return sand(*[c < 128 for c in self.items])
+
+    def lower(self):
+        return mk_bytes([ite(sand(c >= 65, c <= 90), c + 32, c) for c in self.items])
+
+    def upper(self):
+        return mk_bytes([ite(sand(c >= 97, c <= 122), c - 32, c) for c in self.items])
+
+    def join(self, parts):
+        out = []
+        for i, p in enumerate(list(parts)):
+            if i:
+                out.extend(self.items)
+            out.extend(as_symbytes(p).items)
+        return mk_bytes(out)
+
+    def translate(self, table, delete=b""):
+        if delete:
+            raise SxUnsupported("bytes.translate with delete")
+        return mk_bytes([select(list(table), c) if isinstance(c, SymInt) else table[c] for c in self.items])
 
 
 def ite_bool(c, a, b):
